@@ -11,6 +11,8 @@
 import HL.Lemmas.Lexer
 import HL.Lemmas.LexLocal
 import HL.Lemmas.LexCover
+import HL.Lemmas.LexMisc
+import HL.Lemmas.LexCache
 namespace HL.Props.C06
 open HL HL.Lex HL.Spec.LexSpec
 
@@ -210,6 +212,54 @@ theorem lex_line_local (C : Classes) (a b : Bytes) :
       (lexAll C (a ++ [0x0A])).dropLast ++
         (lexAll C b).map (shiftTok (countLF a + 1) (a.length + 1)) :=
   lexAll_line_local C a b
+
+/-! ### no panic, no exhausted fuel, UTF-8 -/
+
+/-- `utf8.DecodeRuneInString` on any non-empty byte string: the width is between 1 and 4 and
+    never exceeds what is there (so `l.pos += size` stays inside the input). -/
+theorem decodeRune_width (b : UInt8) (t : Bytes) :
+    1 ≤ (Utf8.decodeRune (b :: t)).2 ∧ (Utf8.decodeRune (b :: t)).2 ≤ 4 ∧
+      (Utf8.decodeRune (b :: t)).2 ≤ (b :: t).length :=
+  ⟨Utf8.decodeRune_width_pos b t, Utf8.decodeRune_width_le4 _, Utf8.decodeRune_width_le_length b t⟩
+
+/-- `DecodeRuneInString(string(c) + r) = (c, RuneLen(c))` for every Unicode scalar value `c`. -/
+theorem decodeRune_encodeRune (c : Nat) (r : Bytes) (hv : Utf8.validRune c) :
+    Utf8.decodeRune (Utf8.encodeRune c ++ r) = (c, (Utf8.encodeRune c).length) ∧
+      Utf8.runeLen c = some (Utf8.encodeRune c).length :=
+  Utf8.decodeRune_encodeRune c r hv
+
+/-- The only unguarded index arithmetic of the lexer, `looksLikeDate` (`l.input[l.pos+i]`,
+    i ≤ 7, behind the guard `l.pos+8 > len`): the transcription with checked reads never hits an
+    index out of range — no panic, for every input. -/
+theorem looksLikeDate_no_panic (a : Bytes) : looksLikeDateChk a = some (looksLikeDate a) :=
+  looksLikeDateChk_eq a
+
+/-- Every inner loop of the lexer terminates within its fuel (= bytes left): with any larger
+    fuel the result is the same.  (`lexAll_fuel_suffices` is the same statement for `Next`.) -/
+theorem scan_loops_fuel_suffice (n : Nat) :
+    (∀ p z, z.after.length ≤ n → advWhileF p n z = advWhile p z) ∧
+    (∀ z l, z.after.length ≤ n → scanAccountF n z l = scanAccountF z.after.length z l) ∧
+    (∀ z hd, z.after.length ≤ n → scanNumberF n z hd = scanNumberF z.after.length z hd) ∧
+    (∀ a hc, a.length ≤ n → looksLikeAccountF n a hc = looksLikeAccountF a.length a hc) ∧
+    (∀ s, s.length ≤ n → trimLeftFuncF n s = trimLeftFuncF s.length s) ∧
+    (∀ s, s.length ≤ n → lastIndexNotSpaceF n s = lastIndexNotSpaceF s.length s) ∧
+    (∀ s, s.length ≤ n → Utf8.runesF n s = Utf8.runes s) :=
+  ⟨fun p z h => (advWhile_eq_fuel p z n h).symm,
+   fun z l h => scanAccountF_fuel _ _ z l h (Nat.le_refl _),
+   fun z hd h => scanNumberF_fuel _ _ z hd h (Nat.le_refl _),
+   fun a hc h => looksLikeAccountF_fuel _ _ a hc h (Nat.le_refl _),
+   fun s h => trimLeftFuncF_fuel _ _ s h (Nat.le_refl _),
+   fun s h => lastIndexNotSpaceF_fuel _ _ s h (Nat.le_refl _),
+   fun s h => runesF_fuel _ _ s h (Nat.le_refl _)⟩
+
+/-- Soundness of the cache of `(*Lexer).looksLikeAccount` (`noColonFrom`/`noColonUntil`): if a
+    scan from `a` walked over `lookStop a` bytes and found no colon, then from every rune
+    boundary `j` inside that stretch (the only places the lexer can be at, `advance_on_chain`)
+    the scan finds no colon either — answering `false` from the cache is what the uncached
+    function would have answered. -/
+theorem looksLikeAccount_cache_sound (a : Bytes) (h : looksLikeAccount a = false) (j : Nat)
+    (hc : OnChain a j) (hj : j < lookStop a) : looksLikeAccount (a.drop j) = false :=
+  HL.Lex.looksLikeAccount_cache_sound a h j hc hj
 
 /-- Non-vacuity / sanity: a concrete stream (date, text, pipe, text, newline, EOF). -/
 example : (lexAll Classes.ascii (asc "2024-01-15 a | b\n")).map (·.ty) =
